@@ -197,10 +197,15 @@ def execute(sc, ctx):
         except FileNotFoundError:
             return
         r = row.get(p)
-        old = r[1] if (r is not None and r[0] == t) else None
-        if old is not None and old != cur[i] and value == model.ref_digest("md5", old):
-            ctx.probe("invisible_mutation_tolerated")
-            return
+        cands = r[1] if (r is not None and r[0] == t) else None
+        if cands is not None:
+            # the row was written for this very (inode, mtime, size) triple; it may vouch for any
+            # of the contents the file had while that triple was current
+            if isinstance(cands, bytes):
+                cands = [cands]
+            if any(c != cur[i] and value == model.ref_digest("md5", c) for c in cands):
+                ctx.probe("invisible_mutation_tolerated")
+                return
         ctx.violate("stale-or-wrong-hash", where, f"{files[i]}: returned {value[:8]} actual {want[:8]} (token {t})")
 
     old_index = None
@@ -314,7 +319,9 @@ def execute(sc, ctx):
                     mid_touched.add(j)
                     # (inode, mtime, size) all unchanged (clock stepped back earlier): invisible by
                     # the property's own wording; the row may keep vouching for the old bytes
-                    mid_invisible[j] = (t_before, old_bytes) if token(path(j)) == t_before else None
+                    # the row written by this call carries the token captured at walk time and the hash
+                    # of whichever content was read: remember both
+                    mid_invisible[j] = (t_before, [old_bytes, cur[j]])
                     ctx.probe("mutation_during_hashing")
 
             ctx.seam.read_hook = hook
